@@ -117,6 +117,13 @@ func (r *router) end() {
 	r.mu.Unlock()
 }
 
+// counts: how many subscription entries and upstream subscriptions the current case has created so far
+func (r *router) counts() (int, int) {
+	r.mu.Lock()
+	defer r.mu.Unlock()
+	return r.n["se"], r.n["qsub"]
+}
+
 func (r *router) sched() *sched.Sched {
 	r.mu.Lock()
 	defer r.mu.Unlock()
